@@ -381,6 +381,37 @@ func deepSlice(v ssa.Value, visit func(ssa.Value) bool) {
 
 var _ = sort.Strings
 
+// deepSliceThroughBuilders is deepSlice that also looks inside module functions whose result flows
+// into the value (a literal built by a small constructor helper instead of in place): the results of
+// every return of such a callee are sliced too, two levels deep.
+func deepSliceThroughBuilders(v ssa.Value, visit func(ssa.Value) bool) {
+	var run func(v ssa.Value, depth int)
+	seenFn := map[*ssa.Function]bool{}
+	run = func(v ssa.Value, depth int) {
+		deepSlice(v, func(x ssa.Value) bool {
+			if !visit(x) {
+				return false
+			}
+			if c, ok := x.(*ssa.Call); ok && depth < 2 {
+				if callee := c.Call.StaticCallee(); callee != nil && strings.HasPrefix(pkgPathOf(callee), modPath) && !seenFn[callee] {
+					seenFn[callee] = true
+					for _, b := range callee.Blocks {
+						for _, in := range b.Instrs {
+							if ret, ok := in.(*ssa.Return); ok {
+								for _, res := range ret.Results {
+									run(res, depth+1)
+								}
+							}
+						}
+					}
+				}
+			}
+			return true
+		})
+	}
+	run(v, 0)
+}
+
 // ---------------------------------------------------------------------------------------------
 // C12/R8 logical-aliases-reset-trackers.
 //
